@@ -4,7 +4,7 @@
    silently falls back to its private in-process bucket although Redis is reachable.
    [pinned_script] is the translator's output for that version (lua2coq.py, verbatim). *)
 From Coq Require Import List ZArith String QArith Bool.
-From GZ Require Import Lib.RedisStore C03.Model.
+From GZ Require Import Lib.RedisStore C03.Model C03.Monitor.
 Import ListNotations.
 Open Scope string_scope.
 Open Scope Z_scope.
@@ -174,4 +174,26 @@ Theorem token_unsynchronised_clocks_refuted :
     [TR true true true; TR true true true; TR true true true; TR true true true; TR true true true; TR true true true] /\
   granted_by_script skew_history (trun skew_cfg (tinit true skew_T 2) skew_history) = 20 /\
   burst skew_cfg + rate skew_cfg * 10 < 20.
+Proof. vm_compute. repeat split; reflexivity. Qed.
+
+(* ------------------------------------------------------------------ seeded C03-6: lost wake-up
+   The variant of startMonitor with a lock-free fast path (CAS(redisAlive,1,0) before the lock, no
+   store of 0 under the lock) - Monitor.mstep with fast = true.  One request thread, a flapping
+   store: the monitor has stored redisAlive = 1 and is in the window before it clears
+   monitorStarted; the store goes down again; the request fails, its CAS flips the flag back to 0,
+   it finds monitorStarted = true and returns; the monitor then clears monitorStarted.  Result:
+   redisAlive = 0, no monitor, nothing pending - with the store reachable the instance stays on its
+   private bucket for ever (no step of the monitor or of the request changes that).
+   HEAD is proved free of this for all schedules: Props.monitor_never_stuck. *)
+Definition lost_wakeup : list action :=
+  [ADown; AReq 0%nat; AReq 0%nat; AReq 0%nat; AReq 0%nat; AReq 0%nat; AReq 0%nat;      (* call fails: CAS, lock, start the monitor *)
+   AUp; AMon; AMon;                                            (* ping ok; redisAlive = 1; WINDOW *)
+   ADown; AReq 0%nat; AReq 0%nat; AReq 0%nat; AReq 0%nat; AReq 0%nat;              (* call fails: CAS 1->0, lock, monitorStarted: return *)
+   AMon; AMon; AUp].                                           (* the monitor clears monitorStarted and is gone *)
+Theorem fast_path_lost_wakeup_refuted :
+  let s := mrun true (minit 1%nat) lost_wakeup in
+  m_up s = true /\ quiescent s = true /\ m_alive s = false /\ recovery_pending s = 0%nat /\
+  m_alive (mrun true s [AMon; AMon; AMon; AMon; AReq 0%nat; AReq 0%nat; AReq 0%nat; AMon; AMon; AMon; AMon]) = false /\
+  (* the same schedule on HEAD ends with the instance back on the store *)
+  m_alive (mrun false (minit 1%nat) (lost_wakeup ++ [AMon; AMon; AMon; AMon])) = true.
 Proof. vm_compute. repeat split; reflexivity. Qed.
